@@ -306,7 +306,10 @@ async fn make_world(cfg: &str, upstream: SocketAddr) -> Result<World, String> {
                     while let Some(Ok(m)) = ws.next().await {
                         if let WsMsg::Binary(b) = m {
                             let reply = RawFrame::parse_prefix(&b).filter(|(f, n)| *n == b.len() && f.h.notify == 0).map(|(f, _)| {
-                                let mut r = RawFrame::request(f.h.id, false, 1, b"", 2, b"\"r\"");
+                                // the answer to a follow-up `/ping` is larger than the small assumed limits:
+                                // what the client assumes about its peer does not limit what it reads
+                                let big: Vec<u8> = if f.query == b"/ping" { let mut b = vec![b'"']; b.extend(std::iter::repeat(b'z').take(70_000)); b.push(b'"'); b } else { b"\"r\"".to_vec() };
+                                let mut r = RawFrame::request(f.h.id, false, 1, b"", 2, &big);
                                 r.h.notify = 0;
                                 r
                             });
@@ -504,7 +507,10 @@ async fn run_frame(w: &mut World, s: &Spec) -> CaseResult {
         let pid = w.fresh();
         let conn = if conn_is_proxy { &mut w.proxy } else { &mut w.srv };
         let r: Result<(), String> = async {
-            conn.send(&RawFrame::request(pid, false, 1, b"/ping", 2, b"null")).await?;
+            // the assumed *peer* limit says nothing about what this endpoint accepts: the follow-up
+            // request is larger than it (when that is cheap)
+            let big_in: Vec<u8> = match s.limit { Some(l) if l <= 65536 => { let mut b = vec![b'"']; b.extend(std::iter::repeat(b'y').take(l + 64)); b.push(b'"'); b } _ => b"null".to_vec() };
+            conn.send(&RawFrame::request(pid, false, 1, b"/ping", 2, &big_in)).await?;
             let (others, pong) = if is_notify { recv_answer(conn, pid).await? } else { conn.recv_until(pid).await? };
             delivered.extend(others);
             if pong.h.id != pid || pong.h.ec != 0 || pong.body != b"\"pong\"" {
